@@ -6,7 +6,7 @@ from typing import Any
 
 from vmc.checks.common import replay_program, run_programs
 from vmc.engine import Action, gate, make_step, make_workflow
-from vmc.events import Ask, Done, Resp, RespSub, Work
+from vmc.events import Ask, Done, Resp, RespSub, RespTwin, Work
 from vmc.progs import ENGINE_ASSUMPTIONS, Oracle, Spec, to_programs
 from workflows.events import StartEvent, StopEvent
 
@@ -59,7 +59,7 @@ def script(events: list[tuple[str, str]]) -> Any:
     def mk(state: dict[str, Any]) -> list[list[Action]]:
         out = []
         for i, (cls, key) in enumerate(events):
-            klass = {"Resp": Resp, "RespSub": RespSub}[cls]
+            klass = {"Resp": Resp, "RespSub": RespSub, "RespTwin": RespTwin}[cls]
 
             def send(klass: Any = klass, key: str = key, i: int = i) -> None:
                 state["hd"].ctx.send_event(klass(uid=100 + i, key=key))
@@ -128,8 +128,8 @@ def final(h: Any, e: Any, state: dict[str, Any]) -> None:
                 if kind != "event":
                     continue
                 if type(r) is not Resp:
-                    h.violate("wait_result_wrong_type", {**wit0, "got": type(r).__name__},
-                              f"wait_for_event(Resp) returned {type(r).__name__}")
+                    h.violate("wait_result_wrong_type", {**wit0, "got": type(r).__name__ + ("(look-alike)" if type(r) is RespTwin else "")},
+                              f"wait_for_event(Resp) returned an instance of {type(r).__module__}.{type(r).__qualname__}")
                 if requirements and getattr(r, "key", None) != f"{uid}{tag}":
                     h.violate("wait_result_violates_requirements", wit0,
                               f"input Work#{uid} wait{tag!r} required key={uid}{tag!r} but got key={getattr(r, 'key', None)!r}")
@@ -219,6 +219,9 @@ def specs(tier: str) -> list[Spec]:
     # two sequential waits with timeouts: the first wait's (stale) timeout tick may fire between the two answers
     add("timeout_two_waits", 1, 1, 5.0, True, [("Resp", "0"), ("Resp", "0b")], two=True, max_dev=None if not q else 4)
     add("timeout_two_waits_noreq", 1, 1, 5.0, False, [("Resp", "x"), ("Resp", "y")], two=True, max_dev=None if not q else 4)
+    # an unrelated event class that has the same module and __name__ as the awaited one (nested / factory-made classes)
+    add("lookalike_type", 1, 1, None, True, [("RespTwin", "0"), ("Resp", "0")], max_dev=None)
+    add("lookalike_type_noreq", 1, 1, None, False, [("RespTwin", "x"), ("Resp", "y")], max_dev=None)
     # serialize / resume at every quiescent point
     add("resume_match", 1, 1, None, True, [("Resp", "0")], resume=True, max_dev=None)
     add("resume_nonmatch_match", 1, 1, None, True, [("Resp", "zz"), ("Resp", "0")], resume=True, max_dev=d)
@@ -243,7 +246,7 @@ def specs(tier: str) -> list[Spec]:
 
 RULE = ("waits with/without requirements, with/without timeout, explicit/implicit waiter ids, two sequential waits, "
         "two inputs waiting concurrently x response scripts (matching, duplicate, non-matching requirement, subclass, "
-        "early, late) x optional serialize+resume at every quiescent point x all arrival/timer/completion orders "
+        "an unrelated class with the same qualified name, early, late) x optional serialize+resume at every quiescent point x all arrival/timer/completion orders "
         "within the stated deviation bound; non-trivial = at least one schedule deviation")
 
 
